@@ -676,6 +676,35 @@ def _check_case(case):
                 return f'qubit {i}: distribution { {k: str(v) for k, v in got.items()} } is not the stated ' \
                        f'{ {k: str(v) for k, v in dists[i].items()} }'
         return None
+    if kind == 'dist-after-use':
+        # the distribution must still be the stated one after the model has been USED on the same
+        # (model, code, rate): weights, sampling, probabilities of errors, decoder construction/decoding
+        em.probability_distribution(code, pf)
+        em.get_weights(code, pf)
+        em.generate(code, pf, rng=np.random.default_rng(3))
+        try:
+            em.error_probability(np.zeros(2 * n, dtype='uint8'), code, pf)
+            em.error_probability(np.ones(2 * n, dtype='uint8'), code, pf, log_output=True)
+        except Exception:  # noqa
+            pass
+        if code.is_css:
+            try:
+                from panqec.decoders import MatchingDecoder, BeliefPropagationOSDDecoder
+                if case['code'] in MATCHING_CODES:
+                    MatchingDecoder(code, em, pf).decode(np.zeros(code.n_stabilizers, dtype='uint8'))
+                BeliefPropagationOSDDecoder(code, em, pf, channel_update=True, max_bp_iter=5).decode(
+                    np.zeros(code.n_stabilizers, dtype='uint8'))
+            except Exception:  # noqa
+                pass
+        em.get_weights(code, pf)
+        arrs = em.probability_distribution(code, pf)
+        for i in range(n):
+            got = {s_: fr(arrs[k][i]) for k, s_ in enumerate(LETTERS)}
+            if got != dists[i]:
+                return (f'after get_weights / generate / error_probability / decoders on the same (model, code, rate), '
+                        f'qubit {i} has { {k: str(v) for k, v in got.items()} }, stated '
+                        f'{ {k: str(v) for k, v in dists[i].items()} }')
+        return None
     if kind == 'dist-sequence':
         # one model object asked for several error rates in a row (results are cached by the code)
         for ps in case['rates']:
@@ -844,6 +873,8 @@ def oracle_cases(ctx, deep):
                         us.append(cand[int(rng.integers(len(cand)))])
                     cases.append(dict(base, kind='sample', us=[rs(u) for u in us]))
                 cases.append(dict(base, kind='weights'))
+                if len(cases) % 4 == 0 or deep:
+                    cases.append(dict(base, kind='dist-after-use'))
                 if name in MATCHING_CODES and not same_matrix(code.Hx, code.Hz):
                     for et in (None, 'X', 'Z'):
                         cases.append(dict(base, kind='matching', error_type=et))
